@@ -24,11 +24,15 @@ var c02Tampers = []string{
 	// C02-specific
 	"field-reencoded-not-resigned", "key-substituted-not-resigned", "key-substituted-resigned-reveal-kept", "key-substituted-resigned-reveal-shortened", "key-mirrored-signed-by-original", "delta-protocol-invalid", "alg-other-allowed-not-resigned",
 	"header-kid-added-not-resigned", "signature-truncated", "signature-padded", "signature-empty", "segment-base64-padded", "four-segments",
-	"signature-of-other-request", "delta-substituted", "suffix-signed-mismatch",
+	"signature-of-other-request", "delta-substituted", "delta-substituted", "delta-substituted", "suffix-signed-mismatch",
 }
 
 // attackerMarkers are strings that only attacker-chosen content carries.
 const attackerMarker = "attacker"
+
+// c02TwinValid holds the validly signed request a "delta-substituted" tamper was derived from when the substitute is a twin
+// of the signed delta (nil otherwise): that request must be accepted, or the refusal of the twin shows nothing.
+var c02TwinValid []byte
 
 func c02Tamper(t *rapid.T, b *opBuild, class string, p protocol.Protocol, donor *opBuild) ([]byte, bool) {
 	switch class {
@@ -157,6 +161,23 @@ func c02Tamper(t *rapid.T, b *opBuild, class string, p protocol.Protocol, donor 
 		if b.Delta == nil {
 			return nil, false
 		}
+		c02TwinValid = nil
+		if good, twin, _ := genDeltaTwin(t, p.Patches); good != nil && rapid.IntRange(0, 2).Draw(t, "substituteTwin") > 0 {
+			// the holder signs a valid delta; what is sent instead is a twin of it that a normalising parser would make equal
+			ps := append([]interface{}{}, b.Delta["patches"].([]interface{})...)
+			at := rapid.IntRange(0, len(ps)).Draw(t, "twinAt")
+			withPatch := func(x map[string]interface{}) []interface{} {
+				return append(append(append([]interface{}{}, ps[:at]...), x), ps[at:]...)
+			}
+			b.Delta["patches"] = withPatch(good)
+			b.Signed["deltaHash"] = refHash(b.Delta, b.Alg)
+			b.sign()
+			b.assemble()
+			c02TwinValid = b.bytes()
+			b.Delta["patches"] = withPatch(twin)
+			b.assemble()
+			break
+		}
 		b.Delta = map[string]interface{}{"updateCommitment": pool()[ktEd25519][3].Commitment(b.Alg), "patches": []interface{}{
 			map[string]interface{}{"action": "replace", "document": map[string]interface{}{"publicKeys": []interface{}{
 				map[string]interface{}{"id": attackerMarker, "type": tJWK2020, "publicKeyJwk": docJWK(pool()[ktP256][2])}}}}}}
@@ -245,6 +266,11 @@ func TestC02_Tampering(t *testing.T) {
 		}
 		if string(bad) == string(valid) {
 			t.Fatalf("harness: tamper %s left the request unchanged", class)
+		}
+		if class == "delta-substituted" && c02TwinValid != nil {
+			if vres, verr := stack.Applier.Apply(anchoredBytes(typ, c02TwinValid, suffix, m), lib0); verr != nil || vres == nil {
+				t.Fatalf("C02 validly signed %s (the request a twin delta was derived from) refused: %v\n%s", typ, verr, c02TwinValid)
+			}
 		}
 		res, aerr := stack.Applier.Apply(anchoredBytes(typ, bad, suffix, m), lib0)
 		desc := fmt.Sprintf("%s / %s\n tampered=%s\n valid=   %s", typ, class, clip(string(bad), 2500), clip(string(valid), 2500))
